@@ -2,6 +2,7 @@ package props
 
 import (
 	"bytes"
+	"context"
 	"encoding/json"
 	"fmt"
 	"io"
@@ -269,6 +270,19 @@ func c08Data(tok string, st *c08State) (res interface{}, err error) {
 	panic("C08: unknown data token " + tok)
 }
 
+// c08BasicAuth: the plain or (for realms of odd length) the context-aware flavour of the realm-carrying
+// basic authenticator — the property holds for both alike.
+func c08BasicAuth(realm, fn string, st *c08State) runtime.Authenticator {
+	if len(realm)%2 == 1 {
+		plain := c08AuthFn(fn, st)
+		return security.BasicAuthRealmCtx(realm, func(ctx context.Context, u, p string) (context.Context, interface{}, error) {
+			pr, err := plain(u, p)
+			return ctx, pr, err
+		})
+	}
+	return security.BasicAuthRealm(realm, c08AuthFn(fn, st))
+}
+
 func c08AuthFn(fn string, st *c08State) security.UserPassAuthentication {
 	return func(string, string) (interface{}, error) {
 		switch fn {
@@ -379,7 +393,7 @@ func c08Run(in []string) []string {
 			panic("C08 harness: producer registered as " + k + " is not filed under " + label)
 		}
 	}
-	api.RegisterAuth("basic", security.BasicAuthRealm(realm, c08AuthFn(fn, st)))
+	api.RegisterAuth("basic", c08BasicAuth(realm, fn, st))
 	api.ServeError = func(rw http.ResponseWriter, r *http.Request, err error) {
 		same := "0"
 		if st.supplied != nil && err == st.supplied {
@@ -462,7 +476,7 @@ func c08Run(in []string) []string {
 				req = req.WithContext(withMemo.Context())
 			}
 			if sec {
-				_, _, _ = security.BasicAuthRealm(realm, c08AuthFn(fn, st)).Authenticate(req)
+				_, _, _ = c08BasicAuth(realm, fn, st).Authenticate(req)
 				if herr != nil {
 					st.supplied = herr
 				}
